@@ -22,6 +22,7 @@ RULE = ('E2: all ordered pairs of the <=3-named universe over a,b,c (1 972 signa
         'accepting >=1 shape, or merge raised (both classes populated); distinct by the input tuple.')
 ASSUMPTIONS = ['results compared up to keyword-only parameter order']
 
+_spaces = {}
 SPACE = None
 UNIV = None
 VIEWS = None
@@ -62,38 +63,52 @@ def merge_sigs(*sigs):
 
 
 def check_pair(space, sa, sb, stats, enum):
+    check_exact(space, (sa, sb), stats, enum)
+
+
+def check_exact(space, specs, stats, enum):
+    """Name-aligned inputs (two or more): the result accepts exactly the non-colliding calls all inputs accept, and merge raises
+    IncompatibleSignatures exactly when there is no such call."""
     stats.case()
-    va, vb = universe.spec_view(sa), universe.spec_view(sb)
-    r, exc = merge_sigs(realfn.sig_of(sa, 'f0'), realfn.sig_of(sb, 'f1'))
-    both = space.acc(va) & space.acc(vb)
-    case = {'op': 'pair', 'specs': [list(map(list, sa)), list(map(list, sb))]}
-    desc = 'merge((%s), (%s))' % (universe.spec_text(sa), universe.spec_text(sb))
+    views = [universe.spec_view(s) for s in specs]
+    r, exc = merge_sigs(*[realfn.sig_of(s, 'f%d' % i) for i, s in enumerate(specs)])
+    both = space.full
+    for v in views:
+        both &= space.acc(v)
+    case = {'op': 'pair' if len(specs) == 2 else 'aligned-%d' % len(specs), 'specs': [list(map(list, s)) for s in specs]}
+    desc = 'merge(%s)' % ', '.join('(%s)' % universe.spec_text(s) for s in specs)
+    tag = '' if len(specs) == 2 else '/n=%d' % len(specs)
+    key = tuple(universe.spec_text(s) for s in specs)
     if r is None:
-        stats.cls('aligned/raised')
-        stats.nontriv_enum() if enum else stats.nontriv((universe.spec_text(sa), universe.spec_text(sb)))
-        stats.sample('aligned/raised', {'call': desc})
+        stats.cls('aligned/raised' + tag)
+        stats.nontriv_enum() if enum else stats.nontriv(key)
+        stats.sample('aligned/raised' + tag, {'call': desc})
         if exc != 'IncompatibleSignatures':
-            stats.fail('C09/raise-type', case, '%s raised a plain ValueError instead of IncompatibleSignatures' % desc)
-        if both:
-            npos, kws = space.first(both)
-            stats.fail('C09/raise-but-common-call', case, '%s raised although both accept (npos=%d, kw=%s)' % (desc, npos, list(kws)))
+            stats.fail('C09/raise-type' + tag, case, '%s raised a plain ValueError instead of IncompatibleSignatures' % desc)
+        # for three or more inputs the fold law fixes the outcome step by step, and a step may have to make a parameter
+        # positional-only that a later input can only receive by keyword: only a common all-positional call (colliding for no
+        # possible result) is a witness there
+        witness = both if len(specs) == 2 else both & space.allpos
+        if witness:
+            npos, kws = space.first(witness)
+            stats.fail('C09/raise-but-common-call' + tag, case, '%s raised although all inputs accept (npos=%d, kw=%s)' % (desc, npos, list(kws)))
         return
-    stats.cls('aligned/returned')
+    stats.cls('aligned/returned' + tag)
     rv = universe.sig_view(r)
     racc = space.acc(rv)
     if not both:
-        stats.fail('C09/return-but-no-common-call', case, '%s -> %s although no call shape is accepted by both' % (desc, r))
-    nc = space.noncolliding(rv, [va, vb])
-    if sa != sb and racc:
-        stats.nontriv_enum() if enum else stats.nontriv((universe.spec_text(sa), universe.spec_text(sb)))
-        stats.sample('aligned/returned', {'call': desc, 'result': str(r), 'noncolliding_accepted': space.count(racc & nc)})
+        stats.fail('C09/return-but-no-common-call' + tag, case, '%s -> %s although no call shape is accepted by all inputs' % (desc, r))
+    nc = space.noncolliding(rv, views)
+    if len(set(specs)) > 1 and racc:
+        stats.nontriv_enum() if enum else stats.nontriv(key)
+        stats.sample('aligned/returned' + tag, {'call': desc, 'result': str(r), 'noncolliding_accepted': space.count(racc & nc)})
     diff = (racc ^ both) & nc
     if diff:
         npos, kws = space.first(diff)
         got = cpbind.accepts(rv, npos, kws)
-        stats.fail('C09/%s' % ('unsound' if got else 'inexact'), case,
+        stats.fail('C09/%s%s' % ('unsound' if got else 'inexact', tag), case,
                    '%s -> %s %s (npos=%d, kw=%s) but %s' % (desc, r, 'accepts' if got else 'rejects', npos, list(kws),
-                                                           'an input rejects it' if got else 'both inputs accept it'))
+                                                           'an input rejects it' if got else 'all inputs accept it'))
 
 
 def star_normalised(sig):
@@ -161,11 +176,29 @@ def check_unary_annotated(spec, stats):
         stats.nontriv_enum()
 
 
+def space_for(specs):
+    names = []
+    for s in specs:
+        for p in s:
+            if p.kind in (0, 1, 3) and p.name not in names:
+                names.append(p.name)
+    key = (tuple(names[:6]) + ('q',), max(cpbind.poscap(universe.spec_view(s)) for s in specs) + 1)
+    sp = _spaces.get(key)
+    if sp is None:
+        if len(_spaces) > 64:
+            _spaces.clear()
+        sp = _spaces[key] = ShapeSpace(key[0], key[1])
+    return sp
+
+
 def check_triple(specs, stats, enum):
     views = [universe.spec_view(s) for s in specs]
     if not cpbind.role_consistent(views):
         stats.cls('triple/inconsistent-skipped')
         return
+    if cpbind.name_aligned(views):
+        # the exactness clause for three inputs
+        check_exact(space_for(specs), tuple(specs), stats, enum)
     stats.case()
     sigs = [realfn.sig_of(s, 'f%d' % i) for i, s in enumerate(specs)]
     nary, e1 = merge_sigs(*sigs)
@@ -268,9 +301,6 @@ def st_aligned():
             out.append(tuple(Par(*p) for p in ps))
         return tuple(out)
     return build()
-
-
-_spaces = {}
 
 
 def check_hyp(specs, stats):
